@@ -207,22 +207,181 @@ def evaluate(ctx, case, res):
             cl.add("rebuild raised " + rep["error"].split(":")[0])
     if changed:
         cl.add("destination changed")
-    ctx.case(key=("e2e", case["seed"]), classes=sorted(cl),
+    ctx.case(key=("e2e", case["profile"], case["seed"]), classes=sorted(cl),
              nontrivial=bool(changed) or any(c.startswith("destination: ") for c in cl),
              sample={"case": inp, "destination_before": sorted(b["dest"])[:12], "changed": changed[:12]} if case.get("index") == 2 else None)
 
 
-def make_case(seed, workdir):
-    case = rc.gen_case(seed, "c14", workdir)
+def make_case(seed, workdir, profile="c14"):
+    if profile == "escape":
+        return make_escape_case(seed, workdir)
+    case = rc.gen_case(seed, profile, workdir)
     case["search_all"] = list(case["search"])
-    prepopulate(case, random.Random(f"prepopulate:{seed}"))
+    prng = random.Random(f"prepopulate:{seed}")
+    if profile == "c14" or prng.random() < 0.3:        # the aimed profiles mostly start from an empty destination
+        prepopulate(case, prng)
     if case["dest_arg"] == case["dest"] and not os.path.isdir(case["dest"]):
         os.makedirs(case["dest"])
     return case
 
 
+# ------------------------------------------------------------------------- hostile metafiles aimed at the sources
+ESC_NAMES = ["victim.bin", "x y.dat", "é.bin", "wait....bin", "data"]
+
+
+def make_escape_case(seed, workdir):
+    """
+    A v1 / v2 / hybrid metafile written by the reference encoder whose path elements (v1) or DIRECTORY keys (v2, hybrid)
+    lead from dest/<name> into a search directory, or onto the directory of the metafiles: as separate '..' elements, inside
+    one element ('../../..') or as an absolute element.  A candidate of the recorded name, length and digest lies in a search
+    directory, so the copy is attempted whenever the metafile is let through; where the escape lands there is a SHORTER
+    file of that name (the victim) -- or the metafile itself.  Refusing the metafile is fine.
+    """
+    rng = random.Random(f"escape:{seed}")
+    pl = 16384
+    version = rng.choice([1, 2, 2, 3, 3])
+    cl = {f"hostile metafile: {'v1' if version == 1 else 'v2' if version == 2 else 'hybrid'}"}
+    name = rng.choice(["t", "tor", "album x"])
+    nroots = rng.choice([1, 2, 2])
+    below = rng.choice([["out", "dest"], ["dest"], ["out", "deep", "er", "dest"]])
+    dest = os.path.join(workdir, *below)
+    search = [os.path.join(workdir, "search", f"S{r}") for r in range(nroots)]
+    meta_dir = os.path.join(workdir, "meta")
+    for d in search + [meta_dir, dest]:
+        os.makedirs(d)
+    mf = os.path.join(meta_dir, name + ".torrent")
+    target = rng.choice(["search", "search", "search-sub", "metafile", "meta-dir"])
+    troot = rng.randrange(nroots)
+    fname = rng.choice(ESC_NAMES)
+    if target == "search":
+        landing = ["search", f"S{troot}", fname]
+    elif target == "search-sub":
+        landing = ["search", f"S{troot}", rng.choice(["lib", "k.d"]), fname]
+    elif target == "metafile":
+        fname = name + ".torrent"
+        landing = ["meta", fname]
+    else:
+        landing = ["meta", fname]
+    cl.add("hostile metafile: escape lands " + {"search": "in a search directory", "search-sub": "in a sub-directory of a search directory",
+                                                 "metafile": "on the metafile itself", "meta-dir": "beside the metafile"}[target])
+    up = len(below) + 1                       # from dest/<name> up to the working directory of the case
+    pre = rng.choice([[], [], ["sub"], ["a", "b"]])
+    form = rng.choice(["separate", "separate", "one element", "absolute"])
+    if form == "separate":
+        comps = pre + [".."] * (up + len(pre)) + landing
+    elif form == "one element":
+        comps = pre + ["/".join([".."] * (up + len(pre)))] + landing
+    else:
+        comps = pre + [os.path.join(workdir, *landing[:-1])] + landing[-1:]
+    cl.add("hostile metafile: " + {"separate": "'..' as separate elements", "one element": "'../..' inside one element",
+                                   "absolute": "an absolute element"}[form] + (" below a plain directory" if pre else ""))
+    data = rng.randbytes(rng.choice([5000, 9000, pl, pl + 77, 2 * pl + 5]))
+    files = [(tuple(comps), data)]
+    benign = {}
+    for i in range(rng.randrange(0, 3)):
+        c = rng.choice([("ok.bin",), ("d", "ok2.bin"), ("zz",)])
+        if c not in benign:
+            benign[c] = rng.randbytes(rng.choice([100, pl, pl + 1]))
+    files += sorted(benign.items())
+    if rng.random() < 0.5:
+        files.sort(key=lambda f: [x.encode() for x in f[0]])         # the hostile entry first or later among its siblings
+    raw = oracle.ref_metafile(name, files, pl, version)
+    with open(mf, "wb") as fd:
+        fd.write(raw)
+    metas = [mf]
+    if rng.random() < 0.3:
+        good = oracle.ref_metafile("good", [(("g.bin",), data[:700])], pl, rng.choice([1, 2, 3]))
+        with open(os.path.join(meta_dir, "good.torrent"), "wb") as fd:
+            fd.write(good)
+        with open(os.path.join(search[0], "g.bin"), "wb") as fd:
+            fd.write(data[:700])
+        metas = [meta_dir]
+        cl.add("hostile metafile: in a metafile directory next to a benign metafile")
+    # candidates: every file of the metafile under its own name, in sub-directories of the search roots
+    for i, (c, d) in enumerate(files):
+        p = os.path.join(search[rng.randrange(nroots)], rng.choice(["have", "deep/er", "5_x"]), f"{i}", c[-1])
+        os.makedirs(os.path.dirname(p), exist_ok=True)
+        with open(p, "wb") as fd:
+            fd.write(d)
+    # the victim: a shorter file where the escape lands (the metafile itself is shorter than the candidate by construction)
+    victim = os.path.join(workdir, *landing)
+    if target != "metafile":
+        os.makedirs(os.path.dirname(victim), exist_ok=True)
+        if rng.random() < 0.85:
+            with open(victim, "wb") as fd:
+                fd.write(rng.choice([b"short unrelated file\n", b"", data[:len(data) // 2], rng.randbytes(len(data) - 1)]))
+            cl.add("hostile metafile: a shorter file where the escape lands")
+        else:
+            cl.add("hostile metafile: nothing where the escape lands")
+    elif len(raw) >= len(data):
+        raise RuntimeError("escape case: the metafile is not shorter than the candidate")
+    mode = rng.choice(["api", "api", "cli"])
+    rel = rng.random() < 0.3
+    cl.update({"mode " + mode, "relative destination" if rel else "destination exists"})
+    return {"seed": seed, "profile": "escape", "workdir": workdir, "classes": cl, "mode": mode, "order": "sorted",
+            "metafiles": metas, "search": search, "search_all": search, "dest": dest,
+            "dest_arg": os.path.join(*below) if rel else dest, "cwd": workdir if rel else None,
+            "escape": {"metafile_version": {1: "v1", 2: "v2", 3: "hybrid"}[version], "name": name,
+                       "hostile_entry": comps if form != "absolute" else pre + ["<case directory>/" + "/".join(landing[:-1])] + landing[-1:],
+                       "other_entries": ["/".join(c) for c, _ in files if list(c) != comps],
+                       "lands_on": "/".join(landing), "destination": "/".join(below),
+                       "metafile_hex": raw.hex() if form != "absolute" and len(raw) < 1500 else None}}
+
+
+def escape_summary(case):
+    return dict(case["escape"], case_seed=case["seed"], profile="escape", mode=case["mode"], dest_arg=case["dest_arg"], cwd=case["cwd"],
+                metafiles=[os.path.relpath(m, case["workdir"]) for m in case["metafiles"]],
+                search=[os.path.relpath(x, case["workdir"]) for x in case["search"]])
+
+
+def snap_outside(case):
+    """everything of the case directory except the destination"""
+    pre = os.path.relpath(case["dest"], case["workdir"])
+    return {k: v for k, v in rc.snapshot(case["workdir"]).items() if k != pre and not k.startswith(pre + "/")}
+
+
+def run_escape(case, runners):
+    r = runners.get()
+    try:
+        res = {"before": snap_outside(case)}
+        res["reply1"] = r.run(rc.job_of(case))
+        res["after1"] = snap_outside(case)
+        return res
+    finally:
+        runners.put(r)
+
+
+def evaluate_escape(ctx, case, res):
+    inp = escape_summary(case)
+    rep = res["reply1"]
+    if rep.get("runner_died"):
+        ctx.broken.append(f"runner process died on escape case seed {case['seed']}")
+        return
+    b, a = res["before"], res["after1"]
+    keys = [k for k in sorted(set(b) | set(a)) if b.get(k) != a.get(k)]
+    src = [k for k in keys if k in ("search", "meta") or k.startswith(("search/", "meta/"))]
+    if src:
+        ctx.fail("search-directory-or-metafile-changed", inp, "nothing under the search directories or the metafiles changes",
+                 {"differences": rc.snap_diff({k: b[k] for k in src if k in b}, {k: a[k] for k in src if k in a})[:8],
+                  "error": rep.get("error"), "counter": rep.get("counter")})
+    other = [k for k in keys if k not in src]
+    if other:
+        ctx.fail("changed-outside-destination", inp, "nothing outside the destination is created, changed or removed",
+                 rc.snap_diff({k: b[k] for k in other if k in b}, {k: a[k] for k in other if k in a})[:8])
+    out = rc.outside_events(rep, case["dest"])
+    if out:
+        ctx.fail("mutation-outside-destination", inp, "every filesystem mutation is under the destination", {"events": out[:6]})
+    cl = set(case["classes"])
+    cl.add("hostile metafile: refused" if rep.get("error") else "hostile metafile: rebuild returned")
+    ctx.case(key=("e2e-escape", case["seed"]), classes=sorted(cl), nontrivial=True,
+             sample=dict(inp, error=rep.get("error")) if case.get("index") == 1 else None)
+
+
 def e2e(ctx):
-    n = 70 if ctx.tier == "quick" else 1100
+    quick = ctx.tier == "quick"
+    plan = ["c14"] * (70 if quick else 1100) + ["boundary"] * (6 if quick else 80) + ["boundary-only"] * (6 if quick else 80) + \
+        ["escape"] * (30 if quick else 500)
+    n = len(plan)
     seeds = [ctx.rng.getrandbits(48) for _ in range(n)]
     with core.Scratch("vc14e_") as tmp:
         os.environ["HOME"] = tmp
@@ -236,15 +395,15 @@ def e2e(ctx):
                     cases = []
                     for i in range(c0, min(c0 + 24, n)):
                         try:
-                            c = make_case(seeds[i], os.path.join(tmp, f"c{i}"))
+                            c = make_case(seeds[i], os.path.join(tmp, f"c{i}"), plan[i])
                         except Exception as e:  # noqa
-                            ctx.broken.append(f"case generation failed (seed {seeds[i]}): {type(e).__name__}: {e}")
+                            ctx.broken.append(f"case generation failed (seed {seeds[i]}, {plan[i]}): {type(e).__name__}: {e}")
                             continue
                         c["index"] = i
                         cases.append(c)
-                    results = list(ex.map(lambda c: run_case(c, runners), cases))
+                    results = list(ex.map(lambda c: (run_escape if c["profile"] == "escape" else run_case)(c, runners), cases))
                     for c, res in zip(cases, results):
-                        evaluate(ctx, c, res)
+                        (evaluate_escape if c["profile"] == "escape" else evaluate)(ctx, c, res)
                         shutil.rmtree(c["workdir"], ignore_errors=True)
         finally:
             for r in rs:
@@ -364,6 +523,7 @@ def run(ctx, model_ok):
     rc.match_v1_tie(ctx, model_ok)
     rc.match_v2_tie(ctx, model_ok)
     rc.parts_tie(ctx, model_ok)
+    rc.extract_tie(ctx, model_ok)          # how the metafile is read: which entries, which targets (incl. every hostile key position)
     # the composition Metadata(metafile).rebuild(filemap, dest) on a real scratch filesystem vs Model/RebuildRun.v rebuild_of_metafile
     from props import rebuild_pipeline
     rebuild_pipeline.tie_rebuild_run(ctx, model_ok)
@@ -379,17 +539,18 @@ def replay(ctx, data):
     sub = core.Ctx("C14", ctx.tier, ctx.seed)
     with core.Scratch("vc14r_") as tmp:
         os.environ["HOME"] = tmp
-        case = make_case(inp["case_seed"], os.path.join(tmp, "c"))
+        case = make_case(inp["case_seed"], os.path.join(tmp, "c"), inp.get("profile", "c14"))
+        esc = case["profile"] == "escape"
         q = queue.Queue()
         r = rc.Runner(tmp)
         q.put(r)
         try:
-            res = run_case(case, q)
+            res = (run_escape if esc else run_case)(case, q)
         finally:
             r.close()
-        evaluate(sub, case, res)
+        (evaluate_escape if esc else evaluate)(sub, case, res)
         print("implementation:", res["reply1"].get("impl"), "error:", res["reply1"].get("error"))
-        print(json.dumps(rc.case_summary(case), indent=1, ensure_ascii=False)[:4000])
+        print(json.dumps((escape_summary if esc else rc.case_summary)(case), indent=1, ensure_ascii=False)[:4000])
         for f in sub.failures:
             print("PROBLEM", f["kind"], json.dumps(core.jsonable(f["observed"]), ensure_ascii=False)[:600])
         print("verdict:", "property violated on this input" if sub.failures else "holds on this input")
